@@ -3,6 +3,7 @@ package lint
 import (
 	"fmt"
 	"go/constant"
+	"go/token"
 	"go/types"
 	"sort"
 	"strings"
@@ -1237,7 +1238,7 @@ func (m *Model) ruleXATTRCARRY(r *Results) {
 		case x.Kind == sqlp.EFunc && strings.EqualFold(x.Name, "iif") && len(x.Args) == 3:
 			r.check(noBodyTest(x.Args[0]) && isNullLit(x.Args[1]) && isCol(x.Args[2], "xattrs"), rule, key, pos, "xattrs = iif(<row was a tombstone>, NULL, xattrs)", fmt.Sprintf("xattrs computed as %s: want iif(<test on the OLD row's tombstone/body>, NULL, xattrs)", x))
 		case isParam(x):
-			r.ok(rule, key, pos, "xattrs bound from Go (its provenance is checked on the Go side)")
+			m.xattrCarryGo(r, rule, key, pos, dw, x)
 		default:
 			r.bad(rule, key, pos, "unrecognised xattrs expression %s in a body-assigning statement", x)
 		}
@@ -1256,4 +1257,137 @@ func (m *Model) staticCallersOf(fn *ssa.Function) []ssa.CallInstruction {
 		})
 	}
 	return out
+}
+
+// xattrCarryGo: a body-assigning statement binds xattrs from Go. If the bound value can be the
+// row's xattrs exactly as read, that must only be possible on paths where the row is known to
+// have had a body: a tombstone's xattrs must not be carried into the resurrected document.
+func (m *Model) xattrCarryGo(r *Results, rule, key, pos string, dw *docWrite, x *sqlp.Expr) {
+	site := dw.siteFor("xattrs")
+	b, ok := site.bindingFor(x)
+	if !ok || b.V == nil {
+		r.ok(rule, key, pos, "xattrs bound from Go")
+		return
+	}
+	F := site.Fn
+	e := m.newTermEval()
+	t := e.term(b.V, site.Call, m.closureFrame(F))
+	raw := false
+	for _, alt := range t.alts() {
+		if isScanOf(alt, "xattrs", false) {
+			raw = true
+		}
+	}
+	if !raw {
+		r.ok(rule, key, pos, "xattrs bound from Go are computed (%s), not the row's xattrs as read", t)
+		return
+	}
+	ld, ok := stripConv(b.V).(*ssa.UnOp)
+	if !ok || ld.Op != token.MUL {
+		r.ok(rule, key, pos, "xattrs bound from Go (carried value not held in a variable the checker follows)")
+		return
+	}
+	cell := ld.X
+	// the scan that fills the cell, and the sibling destination that says whether the row had a body
+	var sc *scanCall
+	var flag ssa.Value
+	flagLiveWhenTrue := true
+	for _, c := range m.scanCalls() {
+		if c.Fn != F || c.Site == nil {
+			continue
+		}
+		for i, d := range c.Dests {
+			if d != cell {
+				continue
+			}
+			for _, v := range c.Site.Variants {
+				st := v.Stmt()
+				if st == nil || st.Select == nil || i >= len(st.Select.Cols) || !isCol(st.Select.Cols[i].Expr, "xattrs") {
+					continue
+				}
+				sc = c
+				for j, col := range st.Select.Cols {
+					if j >= len(c.Dests) {
+						continue
+					}
+					switch {
+					case hasBodyTest(col.Expr):
+						flag, flagLiveWhenTrue = c.Dests[j], true
+					case noBodyTest(col.Expr) || isCol(col.Expr, "tombstone"):
+						flag, flagLiveWhenTrue = c.Dests[j], false
+					}
+				}
+			}
+		}
+	}
+	if sc == nil {
+		r.ok(rule, key, pos, "xattrs bound from Go (read elsewhere)")
+		return
+	}
+	if flag == nil {
+		r.undecided(rule, key, pos, "the statement may carry the row's xattrs as read, and the read does not say whether the row had a body")
+		return
+	}
+	c := newCut()
+	for _, blk := range F.Blocks {
+		for i, ins := range blk.Instrs {
+			st, ok := ins.(*ssa.Store)
+			if !ok || st.Addr != cell {
+				continue
+			}
+			if blk == ld.Block() && indexIn(blk, ld) < i {
+				continue
+			}
+			if blk == sc.Call.Block() && i < indexIn(blk, sc.Call) {
+				continue
+			}
+			c.cutBlock(blk)
+		}
+	}
+	isFlagLoad := func(v ssa.Value) bool {
+		l2, ok := stripConv(v).(*ssa.UnOp)
+		return ok && l2.Op == token.MUL && l2.X == flag
+	}
+	for _, iff := range allIfs(F) {
+		cd := condOf(iff)
+		switch {
+		case cd.Op == token.ILLEGAL && cd.X != nil && isFlagLoad(cd.X):
+			// bare boolean flag: cut the edge on which the row is live
+			c.cutEdge(iff.Block(), cd.succWhen(flagLiveWhenTrue))
+		case cd.Y != nil && isFlagLoad(cd.X) && isZeroConst(cd.Y) || cd.Y != nil && isFlagLoad(cd.Y) && isZeroConst(cd.X):
+			// integer flag compared with 0: flag == 0 means "false"
+			if eq, ok := cd.equalEdge(); ok {
+				if flagLiveWhenTrue {
+					for _, sck := range iff.Block().Succs {
+						if sck != eq {
+							c.cutEdge(iff.Block(), sck)
+						}
+					}
+				} else {
+					c.cutEdge(iff.Block(), eq)
+				}
+			}
+		}
+	}
+	// the value read matters only when a row was read: leave the scan through its success edge
+	if blk := sc.Call.Block(); len(blk.Instrs) > 0 {
+		if iff, ok := blk.Instrs[len(blk.Instrs)-1].(*ssa.If); ok {
+			cd := condOf(iff)
+			if eq, ok := cd.equalEdge(); ok && (isNilConst(cd.X) || isNilConst(cd.Y)) {
+				other := cd.X
+				if isNilConst(cd.X) {
+					other = cd.Y
+				}
+				if types.Identical(other.Type(), types.Universe.Lookup("error").Type()) {
+					for _, sck := range blk.Succs {
+						if sck != eq {
+							c.cutEdge(blk, sck)
+						}
+					}
+				}
+			}
+		}
+	}
+	reach := sc.Call.Block() == ld.Block() || !c.blocks[ld.Block().Index] && reachableFromSuccs(sc.Call.Block(), c)[ld.Block().Index]
+	r.check(!reach, rule, key, pos, "the row's xattrs as read reach the statement only on paths where the row is known to have had a body (otherwise they are replaced)", "the row's xattrs, as read, can be written back together with the new body on a path that has not established that the row had a body: a document re-created over a tombstone inherits the tombstone's xattrs")
 }
